@@ -1258,6 +1258,14 @@ func c19Stream(r *hx.Rand, tier string, n int, w *bufio.Writer) map[string]int {
 	for k := 0; k < nDisc; k++ {
 		emit(c19DiscoverLine(r, caseNo, stats))
 	}
+	// (5) advertised PKCE methods / request-object support honoured end to end (c19hon.go); appended last: the cases above keep their numbers
+	nHon := 160
+	if tier == "thorough" {
+		nHon = 4000
+	}
+	for k := 0; k < nHon; k++ {
+		emit(c19RunHonour(r, caseNo, stats))
+	}
 	*op.DefaultEndpoints = c19Pristine
 	keys := make([]string, 0, len(stats))
 	for k := range stats {
